@@ -375,6 +375,12 @@ func (x *Exec) loopHead(li *loopInfo, st *State, variants map[*ssa.BasicBlock]Te
 		if strings.HasPrefix(c, "Ghost_ret_") && !x.loopCallsNamed(li, strings.TrimPrefix(c, "Ghost_ret_")) {
 			continue // no call of that name in the loop (callees inlined in the loop are not searched: see loopCallsNamed)
 		}
+		if strings.HasPrefix(c, "Ghost_calls_") && !x.loopCallsNamed(li, strings.TrimPrefix(c, "Ghost_calls_")) {
+			continue
+		}
+		if strings.HasPrefix(c, "Ghost_atom_") && !x.loopTouchesFieldNamed(li, c[len("Ghost_atom_nch_"):]) {
+			continue
+		}
 		if strings.HasPrefix(c, "Ghost_calls_") || strings.HasPrefix(c, "Ghost_last") || strings.HasPrefix(c, "Ghost_ret_") || strings.HasPrefix(c, "Ghost_atom_") {
 			st.heap[c] = x.havocConst(c+"@loop", x.comps[c])
 		}
